@@ -49,9 +49,18 @@ struct context : asio::execution_context { context() {} ~context() { shutdown();
 
 struct executor {
   asio::execution_context& query(asio::execution::context_t) const noexcept;
+#ifdef VK_INLINE_DISPATCH
+  // as io_context's executor: blocking.possibly by default, so that a function submitted from inside a running handler without
+  // requiring blocking.never (asio::dispatch, completion of composed operations) runs at once, inside the caller
+  bool never_ = false;
+  asio::execution::blocking_t query(asio::execution::blocking_t) const noexcept { return never_ ? asio::execution::blocking_t(asio::execution::blocking.never) : asio::execution::blocking_t(asio::execution::blocking.possibly); }
+  executor require(asio::execution::blocking_t::never_t) const noexcept { executor e = *this; e.never_ = true; return e; }
+  executor require(asio::execution::blocking_t::possibly_t) const noexcept { executor e = *this; e.never_ = false; return e; }
+#else
   static constexpr asio::execution::blocking_t query(asio::execution::blocking_t) noexcept { return asio::execution::blocking.never; }
   executor require(asio::execution::blocking_t::never_t) const noexcept { return *this; }
   executor require(asio::execution::blocking_t::possibly_t) const noexcept { return *this; }
+#endif
   static constexpr asio::execution::outstanding_work_t query(asio::execution::outstanding_work_t) noexcept { return asio::execution::outstanding_work.untracked; }
   executor require(asio::execution::outstanding_work_t::tracked_t) const noexcept { return *this; }
   executor require(asio::execution::outstanding_work_t::untracked_t) const noexcept { return *this; }
@@ -87,13 +96,17 @@ struct world_t {
   std::vector<sock_rec*> socks;
   std::vector<resolver_rec*> resolvers;
   int connect_attempts = 0; int overlapping_connects = 0; int writes_started = 0;
-  int handlers_run = 0; int depth = 0;   // depth > 0 while a handler or an API call is executing
+  int handlers_run = 0; int depth = 0;   // depth > 0 while a handler is executing
+  int inline_runs = 0;
 };
 
 inline world_t& world() { static world_t* w = new world_t(); return *w; }
 inline asio::execution_context& executor::query(asio::execution::context_t) const noexcept { return world().ctx; }
 template <class F> void executor::execute(F&& f) const {
   using FT = std::decay_t<F>;
+#ifdef VK_INLINE_DISPATCH
+  if (!never_ && world().depth > 0) { FT g(std::forward<F>(f)); world().inline_runs++; std::move(g)(); return; }
+#endif
   auto* n = new node_impl<FT>(FT(std::forward<F>(f)));
   world_t& w = world(); *w.q_tail = n; w.q_tail = &n->next; w.q_len++;
 }
@@ -102,7 +115,7 @@ inline bool run_one() {
   world_t& w = world();
   if (!w.q_head) return false;
   node* n = w.q_head; w.q_head = n->next; if (!w.q_head) w.q_tail = &w.q_head; w.q_len--;
-  w.handlers_run++; n->run(n); return true;
+  w.handlers_run++; w.depth++; n->run(n); w.depth--; return true;
 }
 // run handlers until the queue is empty; a queue that never empties is a livelock (e.g. zero-length reads issued forever)
 inline int drain(int limit = 1500) { int k = 0; while (k < limit && run_one()) k++; vk_assert(k < limit, "livelock: the handler queue does not drain (busy loop without progress)"); return k; }
